@@ -126,7 +126,8 @@ Print Assumptions html_template_text_clean.
 
 (* C09 — templates, tag name / attribute (partial): a region that follows a tag name or an attribute (directly or
    after whitespace) starts an Attribute token that contains the whole region and has HasTemplate() = true.
-   NOT proved (correspondence + oracle only): regions further inside a name or a value; the converse. *)
+   NOT proved (correspondence + oracle only): regions further inside a name or a value (the converse is
+   html_template_attr_converse below). *)
 Theorem html_template_atomic_attr_partial :
   forall c d l p q, cfg_ok c -> tb_plain c -> html_inv d l -> intag l = true ->
     lstart (lz l) = lpos (lz l) -> lpos (lz l) <= p ->
@@ -134,6 +135,15 @@ Theorem html_template_atomic_attr_partial :
     exists v l', next c l = Ok (AttributeT, Some v, l') /\ lhas l' = true /\ so v = lpos (lz l) /\ q <= so v + sn v.
 Proof. exact html_template_attr_proof. Qed.
 Print Assumptions html_template_atomic_attr_partial.
+
+(* C09 — templates, attributes (converse, full): an Attribute token reports HasTemplate() = true only if a delimited
+   region [p,q) lies inside it (between the cursor before the call and the cursor after it). *)
+Theorem html_template_attr_converse :
+  forall c d l v l', cfg_ok c -> tb c <> [] -> html_inv d l -> intag l = true ->
+    next c l = Ok (AttributeT, Some v, l') -> lhas l' = true ->
+    exists p q, lpos (lz l) <= p /\ q <= lpos (lz l') /\ is_region c d p q.
+Proof. exact html_template_attr_converse_proof. Qed.
+Print Assumptions html_template_attr_converse.
 
 (* C09 — templates, raw text (partial): with a delimiter that does not start with '<', a region [p,q) in the content
    of a raw-text element lies inside the Text token, HasTemplate() = true, whenever p is reached from the start of
